@@ -137,8 +137,7 @@ theorem findIP_o (h : Fam c ms A B T o fs) (i : String) (ra X : List (String × 
     simp [findSelection, findSelectionSel, Flat.Qown]
   unfold findIP
   rw [hfs, lookup_append_not_mem o _ ra hra]
-  simp [selType, Flat.Qown, TypeRef.isNonNull, TypeRef.isList, extractID, hid, bind, Except.bind, fmtID,
-    Flat.pointQ]
+  simp [selType, Flat.Qown, TypeRef.isList, extractID, hid, bind, Except.bind, fmtID, Flat.pointQ]
 
 theorem parseOne_u (h : Fam c ms A B T o fs) (i u : String) (r : List (String × J)) (hr : GoodResp A o i u r) :
     parseOne (erOf ms A B T o fs u) r = .ok (r, nextOf A B T o fs i u) := by
